@@ -106,6 +106,84 @@ func (o *Obl) buildQuery(slice bool) string {
 				}
 			}
 		}
+		// focused attempt: assumptions that came from clauses labelled for
+		// other properties only are left out (sound: fewer assumptions)
+		if o.Focus {
+			for i, t := range o.PC {
+				if keep[i] && e.foreignLabels(t.S, o.Labels) {
+					keep[i] = false
+				}
+			}
+			// relevance filter (in the style of Meng and Paulson): an assumption is
+			// kept if enough of the symbol weight it carries is already relevant to
+			// the goal; rare symbols weigh more. Preconditions are always kept.
+			freq := map[string]int{}
+			for i := range o.PC {
+				for sy := range syms[i] {
+					if isDecl(sy) {
+						freq[sy]++
+					}
+				}
+			}
+			w := func(sy string) float64 { return 1.0 / float64(freq[sy]) }
+			R := map[string]bool{}
+			gs := map[string]bool{}
+			symbolsIn(goal.S, gs)
+			for sy := range gs {
+				if isDecl(sy) {
+					R[sy] = true
+				}
+			}
+			sel := make([]bool, len(o.PC))
+			for i, t := range o.PC {
+				if keep[i] && e.requireTerms[t.S] {
+					sel[i] = true
+				}
+			}
+			for round := 0; round < 4; round++ {
+				grew := false
+				for i, t := range o.PC {
+					if !keep[i] || sel[i] {
+						continue
+					}
+					var in, tot float64
+					for sy := range syms[i] {
+						if !isDecl(sy) {
+							continue
+						}
+						tot += w(sy)
+						if R[sy] {
+							in += w(sy)
+						}
+					}
+					thr := 0.5
+					if !strings.Contains(t.S, "(forall ") {
+						thr = 0.2 // ground facts are cheap
+					}
+					if tot > 0 && in/tot >= thr {
+						sel[i] = true
+						grew = true
+					}
+				}
+				for i := range o.PC {
+					if sel[i] {
+						for sy := range syms[i] {
+							if isDecl(sy) && !R[sy] && !strings.Contains(o.PC[i].S, "(forall ") {
+								R[sy] = true // only ground facts extend the relevant vocabulary
+							}
+						}
+					}
+				}
+				if !grew {
+					break
+				}
+			}
+			for i := range o.PC {
+				if keep[i] && !sel[i] {
+					keep[i] = false
+				}
+			}
+		}
 		for i, t := range o.PC {
 			if keep[i] {
 				asserts = append(asserts, t.S)
@@ -505,6 +583,27 @@ func solveOne(id string, o *Obl, workDir string, timeoutMs int, all bool, mu *sy
 			// fast path: most obligations are decided by one solver well within a
 			// second; pre-instantiation and the portfolio are for the rest
 			var fast *solveResult
+			if o.Expect != "sat" && !all && o.Exec != nil && (o.Exec.hasForeign(o) || (os.Getenv("WALVC_RELEVANCE") != "" && o.quantifiedAssumptions() >= 8)) {
+				// first without the assumptions that belong to other properties
+				o.Focus = true
+				fq := o.BuildSlicedQuery()
+				o.Focus = false
+				ff := filepath.Join(workDir, fmt.Sprintf("q%s.focus.smt2", i))
+				os.WriteFile(ff, []byte(fq), 0644)
+				if d := os.Getenv("WALVC_DUMPFOCUS"); d != "" {
+					os.MkdirAll(d, 0755)
+					os.WriteFile(filepath.Join(d, sanitize(strings.ReplaceAll(o.Name, "/", "_"))+"_"+o.Path+".focus.smt2"), []byte(fq), 0644)
+					os.WriteFile(filepath.Join(d, sanitize(strings.ReplaceAll(o.Name, "/", "_"))+"_"+o.Path+".full.smt2"), []byte(q), 0644)
+				}
+				fr := raceFastScaled(ff, 0.4)
+				os.Remove(ff)
+				if fr != nil {
+					o.Query = fq
+					o.Status, o.Backend, o.Ms = "proved", fr.backend+"+focus", fr.ms
+					os.Remove(f)
+					return
+				}
+			}
 			if o.Expect != "sat" && !all {
 				// the same sliced query often recurs on several paths: decide it once
 				key := queryKey(q)
@@ -639,7 +738,9 @@ func queryKey(q string) string {
 
 // raceFast runs z3-new (2 s) and cvc5 (6 s) side by side; the first
 // `unsat` wins (each decides goals the other needs much longer for).
-func raceFast(f string) *solveResult {
+func raceFast(f string) *solveResult { return raceFastScaled(f, 1.0) }
+
+func raceFastScaled(f string, scale float64) *solveResult {
 	ctx, cancel := context.WithCancel(context.Background())
 	defer cancel()
 	type ans struct {
@@ -647,7 +748,11 @@ func raceFast(f string) *solveResult {
 		out  string
 		ms   int64
 	}
-	cmds := [][]string{{"z3-new", fmt.Sprintf("-T:%d", int(2*loadFactor+0.5)), f}, {"cvc5", "--full-saturate-quant", fmt.Sprintf("--tlimit=%d", int(6000*loadFactor)), f}}
+	zt := int(2*loadFactor*scale + 0.5)
+	if zt < 1 {
+		zt = 1
+	}
+	cmds := [][]string{{"z3-new", fmt.Sprintf("-T:%d", zt), f}, {"cvc5", "--full-saturate-quant", fmt.Sprintf("--tlimit=%d", int(6000*loadFactor*scale)), f}}
 	ch := make(chan ans, len(cmds))
 	for _, c := range cmds {
 		go func(c []string) {
@@ -753,4 +858,52 @@ func solveDeadProbes(obls []*Obl, workDir string) {
 		}(u, ps)
 	}
 	uwg.Wait()
+}
+
+
+// foreignLabels: the assumption text came from a labelled clause none of whose
+// labels names a property that the goal's labels name.
+func (e *Exec) foreignLabels(term string, goalLabels []string) bool {
+	ls := e.termLabels[term]
+	if len(ls) == 0 {
+		return false
+	}
+	if len(goalLabels) == 0 {
+		return true // an unlabelled (structural) goal: property-specific extras are left out first
+	}
+	for _, l := range ls {
+		for _, g := range goalLabels {
+			if labelProp(l) == labelProp(g) {
+				return false
+			}
+		}
+	}
+	return true
+}
+
+func (e *Exec) hasForeign(o *Obl) bool {
+	for _, t := range o.PC {
+		if e.foreignLabels(t.S, o.Labels) {
+			return true
+		}
+	}
+	return false
+}
+
+func labelProp(l string) string {
+	if i := strings.Index(l, "."); i > 0 {
+		return l[:i]
+	}
+	return l
+}
+
+
+func (o *Obl) quantifiedAssumptions() int {
+	n := 0
+	for _, t := range o.PC {
+		if strings.Contains(t.S, "(forall ") {
+			n++
+		}
+	}
+	return n
 }
